@@ -386,6 +386,11 @@ def C15(run):
         broken = broken + gen_gate(run, 'translator_validate', 'gen_validate', 'program',
                                    'Gen.validate = C15.validateProg by rfl; validate_is_program (lean/Props/C15Prog.lean)',
                                    'ElectionProfile.__validate of droop/profile.py, translated, is no longer the list lean/Props/C15Prog.lean proves the model to check')
+        broken = broken + gen_gate(run, 'translator_bltopts', 'gen_bltopts', 'table',
+                                   'Gen.bltDispatch = C15.bltDispatch by rfl; unknown_option_is_rejected, droop_block_appends, droop_blocks_accumulate '
+                                   '(lean/Props/C15Opts.lean)',
+                                   'the dispatch of [..] options in ElectionProfile.__bltOption, extracted, is no longer the table lean/Props/C15Opts.lean '
+                                   'proves the model to dispatch on')
     rng = rng_for(run)
     n = budget(run, 8000, 200000)
     es, texts = [], []
@@ -467,6 +472,11 @@ def C16(run):
         broken = broken + gen_gate(run, 'translator_validate', 'gen_validate', 'program',
                                    'Gen.validate = C15.validateProg by rfl; validate_is_program (lean/Props/C15Prog.lean)',
                                    'ElectionProfile.__validate of droop/profile.py, translated, is no longer the list lean/Props/C15Prog.lean proves the model to check')
+        broken = broken + gen_gate(run, 'translator_bltopts', 'gen_bltopts', 'table',
+                                   'Gen.bltDispatch = C15.bltDispatch by rfl; unknown_option_is_rejected, droop_block_appends, droop_blocks_accumulate '
+                                   '(lean/Props/C15Opts.lean)',
+                                   'the dispatch of [..] options in ElectionProfile.__bltOption, extracted, is no longer the table lean/Props/C15Opts.lean '
+                                   'proves the model to dispatch on')
     rng = rng_for(run)
     ok_tab, tabs = unicode_tables_check()
     corpus = list(VALID)
